@@ -9,6 +9,7 @@ export PATH=/opt/veriftools/go1.26.8/bin:$PATH
 rm -rf "$S"; mkdir -p "$S/grog"
 rsync -a --exclude .git --exclude docs --exclude examples --exclude pkl /repo/ "$S/grog"/
 rsync -a "$HERE/_overlay/" "$S/grog"/
+(cd "$S/grog" && go1.26.8 mod edit -require=github.com/anishathalye/porcupine@v1.3.0) || { rm -rf "$S"; exit 2; }
 "$HERE/bin/simrewrite" "$S/grog" > "$S/rewrite.log" 2>&1 || { cat "$S/rewrite.log"; rm -rf "$S"; exit 2; }
 cd "$S/grog" && go1.26.8 test -vet=off -count=1 -skip "TestStartTaskUI|TestRunWithConcurrentShutdown" $(go1.26.8 list ./internal/... | grep -v -e zzharness -e completions) 2>&1 | grep -v "no test files" | tail -30
 rc=${PIPESTATUS[0]}
